@@ -254,7 +254,8 @@ let split_n (s : string) (n : int) : string list =
 (* --thm: append the computable premises of the round-trip theorem (Props/C12.v) to every parsed tree *)
 let thm_flag = ref false
 let thm_suffix (tbl : optable) (e : ast) : string =
-  if !thm_flag then "|P" ^ (if premises tbl e then "1" else "0") ^ "K" ^ (if printer_tokens tbl e then "1" else "0") else ""
+  if !thm_flag then "|P" ^ (if premises tbl e then "1" else "0") ^ "K" ^ (if printer_tokens tbl e then "1" else "0")
+                    ^ "S" ^ (if tbl_print_okb tbl && psaneb tbl e then "1" else "0") else ""
 
 let rec run_op (h : hstate) (op : string) : string =
   (* `@t/OP`: the model is sequential - the thread name is ignored *)
